@@ -2,7 +2,7 @@
 From Coq Require Import QArith Qreals Reals List.
 Import ListNotations.
 From MD Require Import lib.QLists model.Functionals model.Isotonic theory.Optimal theory.IsoOptimal theory.GpavaMerge
-  theory.InstExpectile proofs.IsoProps.
+  theory.InstExpectile proofs.IsoProps theory.MaxMin proofs.IsoMaxMin.
 
 Theorem C03_total : forall y weights inc lvl, y <> [] -> valid_w y weights -> (0 < lvl /\ lvl < 1)%Q ->
   exists x r, isotonic_regression y weights inc IFexpectile lvl = IOk (x, r).
@@ -39,3 +39,30 @@ Theorem C03_block_identification : forall a, (0 < a /\ a < 1)%Q -> forall S, S <
   (hi elt (V_expectile a) S (expectile_Q a S) == 0)%Q.
 Proof. exact expectile_Q_root. Qed.
 Print Assumptions C03_block_identification.
+
+(* the fit is max over a<=i of min over b>=i of the weighted level-expectile of y[a..b] *)
+Theorem C03_maxmin : forall y weights lvl x r, y <> [] -> valid_w y weights ->
+  (0 < lvl /\ lvl < 1)%Q ->
+  isotonic_regression y weights true IFexpectile lvl = IOk (x, r) ->
+  forall i, (i < length y)%nat ->
+    ((forall a, (a <= i)%nat -> exists b, (i <= b < length y)%nat /\
+         (expectile_Q lvl (seg (data y weights) a b) <= nth i x 0)%Q) /\
+     (exists a, (a <= i)%nat /\ forall b, (i <= b < length y)%nat ->
+         (nth i x 0 <= expectile_Q lvl (seg (data y weights) a b))%Q)) /\
+    (nth i x 0 == maxmin (expectile_Q lvl) (data y weights) i)%Q /\
+    (nth i x 0 == minmax (expectile_Q lvl) (data y weights) i)%Q.
+Proof. exact iso_expectile_maxmin. Qed.
+Print Assumptions C03_maxmin.
+
+Theorem C03_maxmin_decreasing : forall y weights lvl x r, y <> [] -> valid_w y weights ->
+  (0 < lvl /\ lvl < 1)%Q ->
+  isotonic_regression y weights false IFexpectile lvl = IOk (x, r) ->
+  forall i, (i < length y)%nat ->
+    ((exists a, (a <= i)%nat /\ forall b, (i <= b < length y)%nat ->
+         (expectile_Q lvl (seg (data y weights) a b) <= nth i x 0)%Q) /\
+     (forall a, (a <= i)%nat -> exists b, (i <= b < length y)%nat /\
+         (nth i x 0 <= expectile_Q lvl (seg (data y weights) a b))%Q)) /\
+    (nth i x 0 == minmax_dec (expectile_Q lvl) (data y weights) i)%Q /\
+    (nth i x 0 == maxmin_dec (expectile_Q lvl) (data y weights) i)%Q.
+Proof. exact iso_expectile_maxmin_dec. Qed.
+Print Assumptions C03_maxmin_decreasing.
